@@ -95,6 +95,15 @@ func verifDir() string {
 	return "/verif"
 }
 
+// outDir: where evidence is written (JQCHECK_OUT for self-tests on scratch copies, so that the
+// evidence of the real tree is never overwritten by a mutant run).
+func outDir() string {
+	if d := os.Getenv("JQCHECK_OUT"); d != "" {
+		return d
+	}
+	return filepath.Join(verifDir(), "evidence")
+}
+
 func loadKnown() []knownFinding {
 	data, err := os.ReadFile(filepath.Join(verifDir(), "known_findings.txt"))
 	if err != nil {
@@ -245,10 +254,10 @@ func main() {
 func report(id, tier string, seed int, obs []Obligation, notes []string, counts map[string]int, stats map[string]map[string]int, broken string, dur time.Duration) int {
 	rs := registry[id]
 	known := loadKnown()
-	vdir := verifDir()
-	os.MkdirAll(filepath.Join(vdir, "evidence", "replay"), 0o755)
+	edir := outDir()
+	os.MkdirAll(filepath.Join(edir, "replay"), 0o755)
 	// remove stale replay files of this property
-	if old, _ := filepath.Glob(filepath.Join(vdir, "evidence", "replay", id+"-*.json")); old != nil {
+	if old, _ := filepath.Glob(filepath.Join(edir, "replay", id+"-*.json")); old != nil {
 		for _, f := range old {
 			os.Remove(f)
 		}
@@ -295,7 +304,7 @@ func report(id, tier string, seed int, obs []Obligation, notes []string, counts 
 	}
 	if broken != "" {
 		fmt.Printf("BROKEN: %s\n", broken)
-		rec := filepath.Join(vdir, "evidence", "replay", id+"-broken.json")
+		rec := filepath.Join(edir, "replay", id+"-broken.json")
 		data, _ := json.MarshalIndent(map[string]string{"property": id, "kind": "analysis-could-not-run", "reason": broken}, "", " ")
 		os.WriteFile(rec, data, 0o644)
 		fmt.Printf("VIOLATION property=%s replay=%s kind=undecided (analysis could not run)\n", id, rec)
@@ -305,7 +314,7 @@ func report(id, tier string, seed int, obs []Obligation, notes []string, counts 
 			continue
 		}
 		h := sha1.Sum([]byte(o.Rule + "|" + o.Key + "|" + o.Config))
-		rec := filepath.Join(vdir, "evidence", "replay", fmt.Sprintf("%s-%s-%x.json", id, strings.ReplaceAll(strings.SplitN(o.Rule, "/", 2)[1], "/", "_"), h[:5]))
+		rec := filepath.Join(edir, "replay", fmt.Sprintf("%s-%s-%x.json", id, strings.ReplaceAll(strings.SplitN(o.Rule, "/", 2)[1], "/", "_"), h[:5]))
 		data, _ := json.MarshalIndent(o, "", " ")
 		os.WriteFile(rec, data, 0o644)
 		kind := "violated"
@@ -368,9 +377,9 @@ func report(id, tier string, seed int, obs []Obligation, notes []string, counts 
 		},
 	}
 	data, _ := json.MarshalIndent(ev, "", " ")
-	os.WriteFile(filepath.Join(vdir, "evidence", id+".json"), data, 0o644)
+	os.WriteFile(filepath.Join(edir, id+".json"), data, 0o644)
 	if broken != "" {
-		return 2
+		return 1
 	}
 	if nviol+nund > 0 {
 		return 1
